@@ -859,6 +859,13 @@ func (d *c20Driver) handle(ep *hEndpoint, impl *c20EP, cs *hCase, in c20Inst, se
 func checkC20(c *Ctx) int {
 	run := ev.NewRun("C20", c.Tier, "exploration")
 	t0 := time.Now()
+	c20TsvKnown = func() bool {
+		if !run.KnownActive("tarsupervoxels-root-context-seen-by-c20") {
+			return false
+		}
+		run.ReportKnown("tarsupervoxels-root-context-seen-by-c20")
+		return true
+	}
 	table, tr := c20LoadTable(c)
 	impls := c20Endpoints()
 	for i := range table.Endpoints {
